@@ -522,24 +522,29 @@ func (e *env) opFetch() {
 	nsec := rng.Intn(3)
 	for i := 0; i < nsec; i++ {
 		bs := &imap.FetchItemBodySection{Peek: rng.Intn(2) == 0}
-		switch rng.Intn(5) {
+		// distinct parts so that the results can be told apart
+		if i > 0 || rng.Intn(2) == 0 {
+			bs.Part = []int{i + 1}
+			if rng.Intn(3) == 0 {
+				bs.Part = append(bs.Part, 1+rng.Intn(3))
+			}
+		}
+		switch rng.Intn(7) {
 		case 0:
 			bs.Specifier = imap.PartSpecifierHeader
 		case 1:
 			bs.Specifier = imap.PartSpecifierText
-			bs.Part = []int{1 + i, 2}
 		case 2:
 			bs.Specifier = imap.PartSpecifierHeader
 			bs.HeaderFields = []string{"Subject", "X-H" + fmt.Sprint(i)}
 		case 3:
-			bs.Part = []int{1 + i}
-			bs.Partial = &imap.SectionPartial{Offset: int64(10 * (i + 1)), Size: 1000}
-		}
-		// distinct sections so that the results can be told apart
-		if len(bs.Part) == 0 {
-			bs.Part = nil
-			if i > 0 && bs.Specifier == imap.PartSpecifierNone && bs.Partial == nil {
-				bs.Part = []int{i + 3}
+			bs.Specifier = imap.PartSpecifierHeader
+			bs.HeaderFieldsNot = []string{"Received"}
+		case 4:
+			bs.Partial = &imap.SectionPartial{Offset: int64(10 * rng.Intn(5)), Size: 1000}
+		case 5:
+			if len(bs.Part) > 0 {
+				bs.Specifier = imap.PartSpecifierMIME
 			}
 		}
 		opts.BodySection = append(opts.BodySection, bs)
